@@ -104,6 +104,14 @@ func genData(r *vh.Rand, env vh.Env) Case {
 			a.HasEnd = r.Chance(3, 4)
 			a.EndOff = vh.Pick(r, []int64{-int64(time.Hour), int64(time.Hour), -1, 0, 1, int64(5 * time.Minute)})
 		}
+		if i == 0 && r.Chance(2, 3) { // the first alert of the batch has data of its own (a templated description, ...)
+			a.Annots["description"] = "instance i1 is down since 12:00"
+			if r.Bool() {
+				a.Labels["extra"] = "only-here"
+			}
+		} else if r.Chance(1, 3) {
+			a.Annots["description"] = fmt.Sprintf("text %d", i)
+		}
 		dc.Alerts = append(dc.Alerts, a)
 	}
 	if n > 0 {
@@ -150,6 +158,22 @@ func seenOf(d *template.Data, truncated uint64) *SeenData {
 		s.Alerts = append(s.Alerts, SeenAlert{Firing: a.Status == string(model.AlertFiring), Labels: a.Labels, Annots: a.Annotations, Starts: ns(a.StartsAt), Ends: ns(a.EndsAt)})
 	}
 	return s
+}
+
+func mustJSON(v any) string {
+	b, err := json.Marshal(v)
+	if err != nil {
+		panic(err)
+	}
+	return string(b)
+}
+
+func lsMap(ls model.LabelSet) map[string]string {
+	m := map[string]string{}
+	for k, v := range ls {
+		m[string(k)] = string(v)
+	}
+	return m
 }
 
 func coqKV(m map[string]string) string {
@@ -238,6 +262,8 @@ func runData(t *testing.T, c *Case) result {
 	dc := c.Data
 	var res result
 	var seen *SeenData
+	var rounds []*SeenData
+	var inputs []*types.Alert
 	var now time.Time
 	if dc.Webhook {
 		srv := theHookServer()
@@ -254,25 +280,38 @@ func runData(t *testing.T, c *Case) result {
 		hookMu.Lock()
 		hookBody = nil
 		hookMu.Unlock()
-		retry, err := n.Notify(ctx, mkAlerts(dc.Alerts, now)...)
-		if err != nil || retry {
-			t.Fatalf("webhook Notify: retry=%v err=%v", retry, err)
+		// the SAME alert objects are notified three times (as a retry, a sibling integration or the next flush
+		// would): every payload must be the same and the alerts themselves must come out untouched
+		inputs = mkAlerts(dc.Alerts, now)
+		for round := 0; round < 3; round++ {
+			hookMu.Lock()
+			hookBody = nil
+			hookMu.Unlock()
+			retry, err := n.Notify(ctx, inputs...)
+			if err != nil || retry {
+				t.Fatalf("webhook Notify: retry=%v err=%v", retry, err)
+			}
+			var msg webhook.Message
+			hookMu.Lock()
+			body := hookBody
+			hookMu.Unlock()
+			if err := json.Unmarshal(body, &msg); err != nil || msg.Data == nil {
+				t.Fatalf("webhook body: %v: %s", err, body)
+			}
+			rounds = append(rounds, seenOf(msg.Data, msg.TruncatedAlerts))
 		}
-		var msg webhook.Message
-		hookMu.Lock()
-		body := hookBody
-		hookMu.Unlock()
-		if err := json.Unmarshal(body, &msg); err != nil || msg.Data == nil {
-			t.Fatalf("webhook body: %v: %s", err, body)
-		}
-		seen = seenOf(msg.Data, msg.TruncatedAlerts)
 	} else {
 		synctest.Test(t, func(t *testing.T) {
 			now = time.Now()
-			d := theTemplate(t).Data("team", toLS(dc.Group), nil, "first notification", mkAlerts(dc.Alerts, now)...)
-			seen = seenOf(d, 0)
+			inputs = mkAlerts(dc.Alerts, now)
+			for round := 0; round < 3; round++ {
+				d := theTemplate(t).Data("team", toLS(dc.Group), nil, "first notification", inputs...)
+				rounds = append(rounds, seenOf(d, 0))
+			}
 		})
 	}
+	// the model is compared with the LAST build; the direct oracle below requires all builds to agree
+	seen = rounds[len(rounds)-1]
 	dc.Now, dc.Seen = now.UnixNano(), seen
 
 	// Coq term
@@ -294,6 +333,19 @@ func runData(t *testing.T, c *Case) result {
 	// ---- direct oracle ----
 	viol := func(key, what string) {
 		res.viol = append(res.viol, vh.Violation{Key: key, What: what, Case: c})
+	}
+	for k := 1; k < len(rounds); k++ {
+		if a, b := mustJSON(rounds[0]), mustJSON(rounds[k]); a != b {
+			viol("payload-differs-on-rebuild", fmt.Sprintf("build %d of the payload from the same alert objects differs from build 1: %s  vs  %s", k+1, b, a))
+			break
+		}
+	}
+	for i, a := range inputs {
+		if !sameKV(lsMap(a.Labels), dc.Alerts[i].Labels) || !sameKV(lsMap(a.Annotations), dc.Alerts[i].Annots) {
+			viol("payload-build-mutates-alert", fmt.Sprintf("after building the payload alert %d of the batch has labels %v annotations %v, it had labels %v annotations %v",
+				i, a.Labels, a.Annotations, dc.Alerts[i].Labels, dc.Alerts[i].Annots))
+			break
+		}
 	}
 	listed := dc.Alerts
 	wantTrunc := uint64(0)
